@@ -147,12 +147,14 @@ def emit (st : St F) (e : Effect F) : St F := { st with trace := e :: st.trace }
 def pushScope (st : St F) : St F := { st with locals := [] :: st.locals }
 def popScope (st : St F) : St F := { st with locals := st.locals.tail }
 
-/-- call an external function; on an oracle miss record the query and go on with `dflt` -/
+/-- call an external function; on an oracle miss record the query, go on with `dflt` and raise the
+stop flag: the run is void (the harness answers the query and runs again), so it ends at the next tick
+instead of wandering down a path the real program never takes -/
 def callExt (ext : Ext F) (st : St F) (f : String) (args : List (XArg F)) (dflt : List (XArg F)) :
     List (XArg F) × St F :=
   match ext.call f args with
   | some r => (r, st)
-  | Option.none => (dflt, { st with misses := (f, args) :: st.misses })
+  | Option.none => (dflt, { st with misses := (f, args) :: st.misses, stopped := true })
 
 /-! ### rendering, equality, copying (over the heap, with fuel against cyclic values) -/
 
